@@ -137,16 +137,25 @@ func c18Signal(c *Ctx, handle, shut *ssa.Function) {
 				if !core.Dominates(call, ret) {
 					continue
 				}
-				v := ret.Results[0]
-				if v == ssa.Value(call) {
-					okR = true
-				}
-				if ld, ok := v.(*ssa.UnOp); ok && ld.Op == token.MUL {
+				// through result cells (the helper's and Handle's own)
+				var from func(v ssa.Value, depth int) bool
+				from = func(v ssa.Value, depth int) bool {
+					if v == ssa.Value(call) {
+						return true
+					}
+					ld, ok := v.(*ssa.UnOp)
+					if !ok || ld.Op != token.MUL || depth > 4 {
+						return false
+					}
 					for _, r := range core.Refs(ld.X) {
-						if st, ok := r.(*ssa.Store); ok && st.Val == ssa.Value(call) && core.Dominates(st, ret) {
-							okR = true
+						if st, ok := r.(*ssa.Store); ok && st.Addr == ld.X && core.Dominates(st, ld) && core.Dominates(call, st) && from(st.Val, depth+1) {
+							return true
 						}
 					}
+					return false
+				}
+				if from(ret.Results[0], 0) {
+					okR = true
 				}
 			}
 			c.check(okR, "C18.signal.filter", handle, "Handle returns the status computed by shutdown", call, "success only if shutdown reports success")
